@@ -7,6 +7,8 @@ import (
 	"strings"
 	"time"
 
+	"github.com/goplus/xgo/parser"
+
 	"verifharness/xgolib"
 )
 
@@ -14,6 +16,7 @@ import (
 // the same pipeline the checks use, print the generated Go and (with -run) the program's output.
 func runTry(args []string) {
 	run, nofl, quiet := false, false, false
+	var mode parser.Mode
 	var dir string
 	for _, a := range args {
 		switch a {
@@ -23,6 +26,8 @@ func runTry(args []string) {
 			nofl = true
 		case "-q":
 			quiet = true
+		case "-comments":
+			mode = parser.ParseComments
 		default:
 			dir, _ = filepath.Abs(a)
 		}
@@ -40,7 +45,7 @@ func runTry(args []string) {
 			files[n] = string(b)
 		}
 	}
-	out := xgolib.Compile(files, xgolib.Options{NoFileLine: nofl})
+	out := xgolib.Compile(files, xgolib.Options{NoFileLine: nofl, ParseMode: mode})
 	if out.Err != nil || out.Panic != nil {
 		fmt.Printf("stage=%s err=%v panic=%v\n", out.Stage, out.Err, out.Panic)
 		return
